@@ -7,6 +7,7 @@ Result object (dict):
   undecided: [reason...]   functions: [...]   assumptions: [...]   fired: [...]   times
 """
 import hashlib
+import threading
 import json
 import os
 import re
@@ -140,8 +141,24 @@ def line_hash(text):
     return hashlib.sha256(re.sub(r"\s+", " ", text.strip()).encode()).hexdigest()[:6]
 
 
+BUFFER_KIND = {"terminal": "b.is_terminal_buffer", "picture": "!b.is_terminal_buffer", "any": "true"}
+_KIND = threading.local()
+
+
 def run_unit(unit_path, repo="/repo", tier="quick", seed=0, keep=False, extra_args=None, rlimit=None,
-             only_fn=None):
+             only_fn=None, buffer_kind=None):
+    _KIND.value = buffer_kind
+    try:
+        r = _run_unit(unit_path, repo, tier, seed, keep, extra_args, rlimit, only_fn)
+    finally:
+        _KIND.value = None
+    if buffer_kind:
+        r["buffer_kind"] = buffer_kind
+    return r
+
+
+def _run_unit(unit_path, repo="/repo", tier="quick", seed=0, keep=False, extra_args=None, rlimit=None,
+              only_fn=None):
     """Runs the unit; if rustc cannot find a *constant* that the (changed) code refers to, the constant's item is
     extracted from the same source files and the unit is run again (rule AUTO-CONST: the item text is the real one)."""
     extra = []
@@ -214,6 +231,10 @@ def _run_unit_once(unit_path, repo="/repo", tier="quick", seed=0, keep=False, ex
             res["undecided"].append(f"extraction error: {e}")
             return res
         text = gen.text.replace("\n} // verus!", CANARY + "\n} // verus!")
+        kind = getattr(_KIND, "value", None)
+        if kind and "/*@VX_BUFFER_KIND@*/ true" in text:
+            text = text.replace("/*@VX_BUFFER_KIND@*/ true", f"/* buffer kind: {kind} */ " + BUFFER_KIND[kind])
+            res["buffer_kind"] = kind
         if "allocator_api" in text and "#![feature(allocator_api)]" not in text:
             pass
         src = os.path.join(work, res["unit"] + ".rs")
@@ -465,9 +486,10 @@ if __name__ == "__main__":
     ap.add_argument("--keep", action="store_true")
     ap.add_argument("--fn")
     ap.add_argument("--rlimit")
+    ap.add_argument("--kind", choices=sorted(BUFFER_KIND))
     a = ap.parse_args()
     up = a.unit if os.path.exists(a.unit) else os.path.join(VX, "units", a.unit + ".vc")
-    r = run_unit(up, a.repo, keep=a.keep, only_fn=a.fn, rlimit=a.rlimit)
+    r = run_unit(up, a.repo, keep=a.keep, only_fn=a.fn, rlimit=a.rlimit, buffer_kind=a.kind)
     print("status:", r["status"], "obligations:", r["obligations"], "discharged:", r["discharged"],
           "wall:", r["times"].get("total_wall_s"))
     for u in r["undecided"]:
